@@ -105,6 +105,8 @@ type Runner struct {
 	// armed in-pass injection: before the injN-th pool write of the next pass, act on that very key
 	injN, injKind int
 	injCount     int
+	// armed owner edit: before call number ownerInjN of the next pass the user toggles the owner's pause state
+	ownerInjN int
 	// InPassHook lets a property inject third-party actions inside a pass.
 	InPassHook func(r *Runner, c *kubesim.Call)
 	// Log collects a short human readable trace digest.
@@ -113,6 +115,42 @@ type Runner struct {
 	MaxQuiesceRounds int
 	Views []*PassView
 	KeepViews bool
+	// probeRegistry maps the canonical JSON of rendered availabilityProbes to their reference form.
+	probeRegistry map[string][]refmodel.RObjectSetProbe
+}
+
+func probesFingerprint(v any) string {
+	m, err := kubesim.Normalize(map[string]any{"p": v})
+	if err != nil {
+		return "?"
+	}
+	b, _ := json.Marshal(m["p"])
+	return string(b)
+}
+
+// RegisterProbes remembers the reference form of a probe list.
+func (r *Runner) RegisterProbes(ps []refmodel.RObjectSetProbe) {
+	if r.probeRegistry == nil {
+		r.probeRegistry = map[string][]refmodel.RObjectSetProbe{}
+	}
+	api := refmodel.API(ps)
+	if len(api) == 0 {
+		return
+	}
+	r.probeRegistry[probesFingerprint(api)] = ps
+}
+
+// ProbesFor returns the reference probes of an ObjectSet / ObjectSetPhase object (JSON form).
+func (r *Runner) ProbesFor(owner map[string]any) []refmodel.RObjectSetProbe {
+	raw, ok := asMap(owner["spec"])["availabilityProbes"]
+	if !ok || len(asList(raw)) == 0 {
+		return nil
+	}
+	ps, ok := r.probeRegistry[probesFingerprint(raw)]
+	if !ok {
+		panic("harness: unregistered probe list " + probesFingerprint(raw))
+	}
+	return ps
 }
 
 // NewRunner builds a runner with a fresh world.
@@ -130,6 +168,10 @@ func NewRunner(sc *Scenario, mons ...Monitor) *Runner {
 func (r *Runner) beforeCall(c *kubesim.Call) kubesim.Fault {
 	if r.InPassHook != nil {
 		r.InPassHook(r, c)
+	}
+	if r.ownerInjN > 0 && c.NCall == r.ownerInjN {
+		r.ownerInjN = 0
+		r.toggleOwnerPause(c.Pass)
 	}
 	if r.injN > 0 && c.Actor == "pko" && !c.DryRun && c.Key.Group != engine.PKOGroup && (c.Verb == "delete" || c.Verb == "patch") {
 		r.injCount++
@@ -202,6 +244,7 @@ func (r *Runner) BuildObject(o ObjSpec, cluster bool) corev1alpha1.ObjectSetObje
 
 // TemplateSpec renders phases+probes.
 func (r *Runner) TemplateSpec(s SetSpec, sliceNames map[int][]string) corev1alpha1.ObjectSetTemplateSpec {
+	r.RegisterProbes(s.Probes)
 	ts := corev1alpha1.ObjectSetTemplateSpec{AvailabilityProbes: refmodel.API(s.Probes)}
 	for i, ph := range s.Phases {
 		p := corev1alpha1.ObjectSetTemplatePhase{Name: ph.Name, Class: ph.Class}
@@ -563,7 +606,7 @@ func (r *Runner) Reconcile(ctrlName string, key kubesim.Key) (*PassView, error) 
 	}
 	p := r.W.RunPass(ctrlName, engine.Req(key.Namespace, key.Name))
 	r.faultKind = kubesim.FaultNone
-	r.injN, r.injCount = 0, 0
+	r.injN, r.injCount, r.ownerInjN = 0, 0, 0
 	if p.Panic != nil {
 		return nil, Violf("C19", "panic-in-reconcile:"+ctrlName, "controller %s panicked: %v", ctrlName, p.Panic)
 	}
@@ -650,6 +693,8 @@ func (r *Runner) Exec(idx int, st Step) error {
 		kinds := []kubesim.Fault{kubesim.FaultErrorBefore, kubesim.FaultLostResponse, kubesim.FaultCrash, kubesim.FaultCrashAfter}
 		r.faultKind = kinds[mod(st.J, len(kinds))]
 		r.faultNCall = 1 + mod(st.I, 40)
+	case "injectOwnerEdit":
+		r.ownerInjN = 2 + mod(st.I, 14)
 	case "inject":
 		r.injN = 1 + mod(st.I, 6)
 		r.injKind = st.J
@@ -657,6 +702,25 @@ func (r *Runner) Exec(idx int, st Step) error {
 	case "quiesce":
 		_, _, err := r.Quiesce()
 		return err
+	case "pausePhase":
+		keys := append(r.W.ListKeys(engine.PKOGroup, "ObjectSetPhase"), r.W.ListKeys(engine.PKOGroup, "ClusterObjectSetPhase")...)
+		if len(keys) == 0 {
+			return nil
+		}
+		k := keys[mod(st.I, len(keys))]
+		r.W.ActAs("user", func(c client.Client) {
+			o := r.W.Store.Peek(k)
+			if o == nil {
+				return
+			}
+			sp, _ := o["spec"].(map[string]any)
+			if st.On {
+				sp["paused"] = true
+			} else {
+				delete(sp, "paused")
+			}
+			_ = c.Update(r.W.Ctx, engine.U(o))
+		})
 	case "pauseSet", "archiveSet", "unpauseSet":
 		r.userLifecycle(st)
 	case "deleteSet":
@@ -1028,4 +1092,35 @@ func hasFinalizerStr(o map[string]any, f string) bool {
 		}
 	}
 	return false
+}
+
+// toggleOwnerPause edits the spec of the object the running pass reconciles (generation bump) as the user.
+func (r *Runner) toggleOwnerPause(passID int) {
+	if len(r.W.Passes) == 0 {
+		return
+	}
+	p := r.W.Passes[len(r.W.Passes)-1]
+	kind := engine.ControllerKind[p.Controller]
+	if kind != "ObjectSet" && kind != "ClusterObjectSet" {
+		return
+	}
+	k := kubesim.Key{Group: engine.PKOGroup, Kind: kind, Namespace: p.Req.Namespace, Name: p.Req.Name}
+	r.W.ActAs("user", func(c client.Client) {
+		o := r.W.Store.Peek(k)
+		if o == nil {
+			return
+		}
+		sp, _ := o["spec"].(map[string]any)
+		if sp == nil || sp["lifecycleState"] == "Archived" {
+			return
+		}
+		if sp["lifecycleState"] == "Paused" {
+			sp["lifecycleState"] = "Active"
+		} else {
+			sp["lifecycleState"] = "Paused"
+		}
+		if c.Update(r.W.Ctx, engine.U(o)) == nil {
+			r.Labels["owner-edited-in-pass"] = true
+		}
+	})
 }
